@@ -84,6 +84,8 @@ def run(ctx):
     vh = VH(vhb, locklog=os.path.join(ctx.scratch_root, "lock_vh.log"))
     try:
         pinned(ctx, vh)
+        if os.environ.get("VERIF_ONLY_PINNED"):
+            return
         for i in range(n_ws):
             root = ctx.scratch(f"ws{i}")
             ws = gen.gen_workspace(root, ctx.rng, allow_multiline=False)
